@@ -301,6 +301,7 @@ struct Client {
   Desc d;
   TimeZone tz;
   int proc = -1;
+  bool restored = false;   // came out of createForTimeZoneData()
 };
 
 struct SavedForm {
@@ -511,6 +512,23 @@ void TzDevice::doQuery(int c, const Query& q, int opIndex, Verdict& v, Coverage&
     cov.count("c08.comparisons");
   }
 
+  if (opts.armC16 && cl.restored && isZone(d.kind) && fills) {
+    // "gives identical answers" - not only right after the restore: whenever a restored zone is asked
+    // something later in the run, the zone the same manager creates directly is asked the same thing
+    MgrSlot& m = isExt(d.kind) ? xmgr : bmgr;
+    if (m.base) {
+      TimeZone direct = m.createForZoneInfo(d.zi);
+      Ans b = ask(direct, q);
+      Ans a2 = ask(cl.tz, q);
+      cov.count("c16.later_answer_checks");
+      if (!equalAns(r, b) || !equalAns(a2, b)) {
+        v.fail("c16-restore-answers", fmt("%s: the restored zone answers %s (and %s when asked again) to %s, the zone created "
+            "directly by the same manager answers %s", zoneName(d.kind, d.zi), r.show().c_str(), a2.show().c_str(),
+            q.kind.c_str(), b.show().c_str()), opIndex);
+      }
+    }
+  }
+
   if (opts.armC09) {
     // M2: arguments the generator knows are outside the supported range stay errors
     bool sentinel = q.byEpoch() && q.e == LocalDate::kInvalidEpochSeconds;
@@ -679,6 +697,19 @@ void TzDevice::exec(const std::vector<std::string>& t, int opIndex, Verdict& v, 
         }
         if (c.d.kind == K_EMPTY) return;
       }
+    } else if (how == "bdata" || how == "xdata") {
+      // created through the restore path from a saved form built on the spot (no store involved): lets the
+      // tz-history profile ask restored zones the same questions as every other kind
+      bool ext = how[0] == 'x';
+      MgrSlot& m = ext ? xmgr : bmgr;
+      long z = tokInt(t, 3, 0);
+      const void* want = shippedZone(ext, z);
+      if (!m.base || !want) return;
+      TimeZoneData data(zoneIdOf(ext, want));
+      c.tz = m.base->createForTimeZoneData(data);
+      const void* zi = m.findById(data.zoneId);
+      if (!zi || c.tz.isError()) { c.d.kind = K_ERROR; if (!c.tz.isError()) return; }
+      else { c.d.kind = ext ? K_XMGR : K_BMGR; c.d.zi = zi; c.d.zoneId = data.zoneId; c.d.zone = (int)z; c.restored = true; }
     } else if (how == "bname" || how == "xname") {
       // device profile only: creation by NAME. Which zone a name maps to is C10's business and is not judged
       // here; under C09 the call must return (no hang, no out-of-bounds read) for present and absent names alike.
@@ -856,6 +887,7 @@ void TzDevice::exec(const std::vector<std::string>& t, int opIndex, Verdict& v, 
     }
     cov.cell("c16", fmt("%s|%s%d|%s|%s", kindName(f.d.kind), ext ? "x" : "b", m.size, rel,
         m.registry.size() == (size_t)(ext ? zonedbx::kZoneRegistrySize : zonedb::kZoneRegistrySize) ? "full" : "subset"));
+    if (isZone(c.d.kind)) c.restored = true;
     if (isZone(f.d.kind) && f.d.zone >= 0) cov.cell(isExt(f.d.kind) ? "c16.zones.x" : "c16.zones.b", fmt("%d", f.d.zone));
     if (f.d.kind == K_MANUAL) cov.cell("c16.manual", fmt("%d,%d", f.d.stdMin, f.d.dstMin));
     clients[s] = c;
@@ -1040,7 +1072,7 @@ struct Gen {
       bool ext = rng.chance(1, 2);
       int z = (ext ? xz : bz)[rng.below((ext ? xz : bz).size())];
       unsigned h = (unsigned)rng.below(10);
-      const char* how = h < 7 ? (ext ? "xmgr" : "bmgr") : (ext ? "xmgrid" : "bmgrid");
+      const char* how = h < 6 ? (ext ? "xmgr" : "bmgr") : (h < 8 ? (ext ? "xmgrid" : "bmgrid") : (ext ? "xdata" : "bdata"));
       line(fmt("TZ %d %s %d # %s", slot, how, z, zoneName(ext ? K_XMGR : K_BMGR, shippedZone(ext, z))));
       ckind[slot] = ext ? K_XMGR : K_BMGR; czone[slot] = z;
     } else {
